@@ -128,6 +128,7 @@ struct bp {
 static struct bp *bps;
 static size_t n_bps;
 static struct bp *rearm;
+static unsigned long hit_cap = 2000;
 
 struct shadow {
         struct bp *bp;
@@ -182,7 +183,10 @@ on_trap(int sig, siginfo_t *si, void *ucv)
         if (si->si_code == TRAP_TRACE) {
                 /* single step over the first instruction of a traced function: re-arm its breakpoint */
                 if (rearm != NULL) {
-                        *rearm->addr = 0xCC;
+                        /* a function that has been checked hit_cap times is left alone afterwards
+                         * (the constant-time lookup helpers are called millions of times) */
+                        if (rearm->hits < hit_cap)
+                                *rearm->addr = 0xCC;
                         rearm = NULL;
                 }
                 g[REG_EFL] &= ~0x100LL;
@@ -1175,12 +1179,14 @@ main(int argc, char **argv)
                         only_suite = argv[++i];
                 else if (strcmp(argv[i], "--variant") == 0 && i + 1 < argc)
                         only_variant = argv[++i];
+                else if (strcmp(argv[i], "--hit-cap") == 0 && i + 1 < argc)
+                        hit_cap = strtoul(argv[++i], NULL, 0);
                 else if (strcmp(argv[i], "--seed") == 0 && i + 1 < argc)
                         rng_s ^= strtoull(argv[++i], NULL, 0) * 0x2545F4914F6CDD1DULL;
                 else {
                         fprintf(stderr,
                                 "usage: %s [--quiet] [--quick] [--trace FILE [--only-fn NAME]] [--suite SUBSTR] "
-                                "[--variant NAME] [--no-direct] [--seed N]\n",
+                                "[--variant NAME] [--no-direct] [--hit-cap N] [--seed N]\n",
                                 argv[0]);
                         return 2;
                 }
